@@ -27,7 +27,7 @@
    sequence of items of a segment: elements are exchanged by `T tmp = a; a = b; b = tmp;`
    (copy-construct, two assignments, destroy), nodes never move.
    No proofs in this file. *)
-From Coq Require Import ZArith List Bool Arith.
+From Coq Require Import ZArith NArith List Bool Arith.
 From Life Require Import LifeSpec.
 Import ListNotations.
 
@@ -910,6 +910,19 @@ Definition step (st : state) (o : op) : res (bool * state) :=
             end
           else skip st
       | _ => skip st
+      end
+  | ORemOut x i r =>
+      (* Array::remove(usize index): `if(index < size) {...}` - with size <= index the body is not entered: nothing is
+         read, written, destroyed or released (r = None).  r = Some j: what an array that removes element j at such
+         an index would do - the same removal code at index j (stated so that the invariant theorems cover every
+         outcome the spec leaves open; the code as it is now is the case r = None, remove_out_of_range_is_noop) *)
+      match getv vs x with
+      | Some c => match out_idx (kind_of c) (clen c) i r with
+                  | Some None => Ok (true, st)
+                  | Some (Some j) => rem_at st x j
+                  | None => skip st
+                  end
+      | None => skip st
       end
   | OInsVia x f ka va =>
       (* prepend(..) {return insert(_begin, ..)...;}  append(..) {return insert(_end, ..)...;} *)
